@@ -105,7 +105,7 @@ def run(ctx: core.Ctx):
     import ynca.enums as En
 
     disagreements = []
-    rounds = 6 if thorough else 1
+    rounds = 30 if thorough else 1
     for rnd in range(rounds):
         for c in T["classes"]:
             S = L3Session()
